@@ -40,7 +40,7 @@ def main():
     na = [{"property_id": p, "reason": "check not built yet in this round (an executable model exists in DESIGN.md section 6; no claim is made until the theorems and the correspondence run)"} for p in ALL if p not in CLAIMED]
     m = {
         "version": 1,
-        "setup_cmd": "/venv/bin/python harness/extract.py --all && cd lean && lake build",
+        "setup_cmd": "/venv/bin/python harness/setup.py",
         "hooks": {
             "guard": "PYXEL_VERIF",
             "enable": "no source hooks: observation is through probe model functions in /verif/harness/probes.py referenced by dotted path; checks set PYXEL_VERIF=1 but /repo does not read it",
